@@ -11,7 +11,7 @@ ASSUMPTIONS = ['E1 (total booked stake <= 1e18), E3, E4', 'the hub has at least 
 OUTSIDE = ['how one token side\'s loss is divided between several batches of that side (the rate kernel calculate_new_withdraw_rate) is decided by '
            'C01 kernel_new_withdraw_rate / release_*', 'more delegation entries than the bound (only their sum enters the computation)']
 
-OPS6 = ['check_slashing', 'bond', 'bond_stsei', 'unbond_bsei', 'unbond_stsei', 'convert_bsei', 'convert_stsei']
+OPS6 = ['check_slashing', 'bond', 'bond_stsei', 'bond_rewards', 'unbond_bsei', 'unbond_stsei', 'convert_bsei', 'convert_stsei']
 
 
 def mk(op, ndel):
@@ -25,7 +25,9 @@ def mk(op, ndel):
             nok += 1
             e = effects(W, st, res)
             if e.sync is None:
-                raise Gap('no synchronisation write observed in ' + op)
+                # the handler did not run the slashing check at all: the books cannot have been brought down to the delegation
+                ctx.require(st, W.D >= W.Bb + W.Bs, 'the slashing check inside the handler recognises a pending slash (books are synchronised)', op + ':exact', W.mv)
+                continue
             Bb, Bs, D = W.Bb, W.Bs, W.D
             T = Bb + Bs
             b1, s1 = e.sync['Bb'], e.sync['Bs']
